@@ -40,6 +40,7 @@ def check(repo, tier="quick"):
     rule_f(res, m)
     rule_g(res, m)
     rule_axes(res, m)
+    rule_resize(res, m)
     res.floor("C22.g", 5)
     res.floor("C22.f", 8)
     res.floor("C22.e", 9)
@@ -448,6 +449,63 @@ def rule_g(res, m):
                 ok = w_ok and norm(k) in [norm(ast.parse(f).body[0].value) for f in forms]
                 found = "repeat count %s for %d ramp rows" % (short(k, 40), n_rows)
     res.check(ok, "C22.g", "linear_ramps:bands-cover-the-frame", where, "linear_ramps must repeat its N ramp rows ceil(frame_height / N) times (e.g. (height + N - 1) // N) before cropping to frame_height rows, with the ramps frame_width wide (%s): a smaller count leaves the frame short for heights that N does not divide" % (found or "shape not recognised"), by="np.repeat(ramps, ceil(height / N), axis=0)[:height]")
+
+
+def _kills(d, call, names):
+    """the plain assignment d reaches `call` on every path: it is a statement of a block that (transitively) contains the
+    call, or one arm of an if/else both of whose arms assign the name and which is such a statement"""
+
+    def holds(stmt):
+        blk = getattr(stmt, "_parent", None)
+        for field in ("body", "orelse", "finalbody"):
+            b = getattr(blk, field, None)
+            if isinstance(b, list) and stmt in b:
+                return any(call is x for later in b[b.index(stmt) + 1 :] for x in ast.walk(later))
+        return False
+
+    if holds(d):
+        return True
+    par = getattr(d, "_parent", None)
+    if isinstance(par, ast.If) and d in par.body + par.orelse:
+        both = all(any(isinstance(x, ast.Assign) and any(dotted(t) in names for t in x.targets) for x in arm) for arm in (par.body, par.orelse))
+        return both and holds(par)
+    return False
+
+
+def rule_resize(res, m):
+    """C22.h: a size handed to resize() (PIL refuses 0) must not be the result of rounding a quotient *down* unless it is
+    clamped to at least 1 afterwards: a floor quotient of positive quantities is 0 as soon as the divisor exceeds the
+    dividend (pixel aspect ratios wider than the sprite)"""
+    res.rule("C22.h", "resampled sizes are positive: every width/height argument of the module's resize() is either taken unchanged from a size, rounded *up* (ceil), or clamped with max(1, ...); none is the result of a floor division (// or //=) of quantities the format controls")
+    n_calls = 0
+    for fn in m.funcs.values():
+        for c in ast.walk(fn):
+            if not (isinstance(c, ast.Call) and dotted(c.func) == "resize" and len(c.args) == 3):
+                continue
+            n_calls += 1
+            for label, a in (("width", c.args[1]), ("height", c.args[2])):
+                names = {x.id for x in ast.walk(a) if isinstance(x, ast.Name)}
+                floors, clamped = [], False
+                for d in ast.walk(fn):
+                    if getattr(d, "lineno", 0) > c.lineno:
+                        continue
+                    if isinstance(d, ast.AugAssign) and dotted(d.target) in names:
+                        if isinstance(d.op, ast.FloorDiv):
+                            floors.append(d)
+                            clamped = False
+                    elif isinstance(d, ast.Assign) and any(dotted(t) in names for t in d.targets):
+                        v = d.value
+                        if isinstance(v, ast.Call) and dotted(v.func) == "max" and any(isinstance(x, ast.Constant) and isinstance(x.value, int) and x.value >= 1 for x in v.args):
+                            clamped = True
+                        elif any(isinstance(x, ast.BinOp) and isinstance(x.op, ast.FloorDiv) for x in ast.walk(v)) or (isinstance(v, ast.Call) and dotted(v.func) == "int" and "ceil" not in norm(v) and any(isinstance(x, ast.BinOp) and isinstance(x.op, ast.Div) for x in ast.walk(v))):
+                            floors.append(d)
+                            clamped = False
+                        elif _kills(d, c, names):
+                            floors, clamped = [], False
+                direct = any(isinstance(x, ast.BinOp) and isinstance(x.op, ast.FloorDiv) for x in ast.walk(a))
+                bad = (floors and not clamped) or direct
+                res.check(not bad, "C22.h", "%s:resize-%s-at-least-one" % (fn.name, label), "%s:%s" % (m.rel, fn.name), "the %s handed to resize() is rounded down (%s) and never clamped to at least 1: it is 0 when the divisor exceeds the dividend, PIL raises ValueError and the generator yields no picture" % (label, "; ".join(short(f, 60) for f in floors) or short(a, 60)), by="unchanged size, ceil, or max(1, ...)")
+    res.floor("C22.h", 4)
 
 
 def rule_axes(res, m):
